@@ -208,6 +208,34 @@ def dist_terms_rule(ctx):
     else:
         res.undecide("ConditionalDiagonalNormal._compute_params", "does not return a pair (means, log_stds)")
     lp = cdn.methods.get("_log_prob")
+    # the density and the sampler use one and the same scale: a floor / cap / clamp applied to a component of
+    # _compute_params in one of the two methods and not in the other makes them two different distributions
+    def _bounded_components(fn):
+        out = set()
+        if fn is None:
+            return out
+        comp_names = set()
+        for a in ast.walk(fn.node):
+            if isinstance(a, ast.Assign) and isinstance(a.value, ast.Call) and norm_text(a.value.func).endswith("_compute_params"):
+                for t in a.targets:
+                    comp_names |= {x.id for x in ast.walk(t) if isinstance(x, ast.Name)}
+        for c in ast.walk(fn.node):
+            if isinstance(c, ast.Call):
+                last = c.func.attr if isinstance(c.func, ast.Attribute) else (c.func.id if isinstance(c.func, ast.Name) else "")
+                if last in ("clamp", "clip", "clamp_min", "clamp_max", "maximum", "minimum", "hardtanh", "softplus") and last != "softplus":
+                    args = list(c.args) + ([c.func.value] if isinstance(c.func, ast.Attribute) else [])
+                    for a in args:
+                        for x in ast.walk(a):
+                            if isinstance(x, ast.Name) and x.id in comp_names:
+                                out.add((x.id, last, norm_text(c)[:60]))
+        return out
+
+    b_lp, b_s = _bounded_components(lp), _bounded_components(cdn.methods.get("_sample"))
+    if {(n_, k_) for n_, k_, _ in b_lp} != {(n_, k_) for n_, k_, _ in b_s}:
+        only = sorted(b_lp - b_s, key=str) or sorted(b_s - b_lp, key=str)
+        where = "_log_prob" if (b_lp - b_s) else "_sample"
+        res.fail(Finding("DIST-TERMS", lp.module, "ConditionalDiagonalNormal.%s" % where, (lp if where == "_log_prob" else cdn.methods.get("_sample")).node, "ConditionalDiagonalNormal.%s bounds a parameter component (`%s`) that the other of _log_prob / _sample uses unbounded: for contexts where the bound acts the density that is evaluated is not the density that is sampled" % (where, only[0][2]), construct="parameter bound in one of _log_prob / _sample"))
+        return res
     # roles of the two components of _compute_params, read off the monomial normal form of the
     # log-density: the component under exp^-2 inside the square and in the subtracted sum is the
     # log-std, the one subtracted from the inputs is the mean -- in any spelling
